@@ -337,6 +337,20 @@ struct BloomSys {
       refused(s, c, p, rid[21], [&]() { r.invert(); });
       refused(s, c, p, rid[22], [&]() { r.union_with(g); });
       refused(s, c, p, rid[23], [&]() { r.intersect(g); });
+      // the read-only property travels with the view: through copy / move construction and through copy / move assignment INTO an
+      // object that was a writable filter before
+      for (int how = 0; how < 4; ++how) {
+        const char* hn[4] = { "copy-constructed(R)", "move-constructed(R)", "copy-assigned(R)-into-writable", "move-assigned(R)-into-writable" };
+        BF src(r);
+        std::unique_ptr<BF> t;
+        if (how == 0) t.reset(new BF(src));
+        else if (how == 1) t.reset(new BF(std::move(src)));
+        else { t.reset(new BF(opnd->G)); if (how == 2) *t = src; else *t = std::move(src); }
+        if (!t->is_read_only()) c.fail(std::string(hn[how]) + "/is_read_only", "a view derived from a read-only wrap does not say it is read-only");
+        refused(s, c, p, std::string(hn[how]) + ".update", [&]() { do_update(*t, it); });
+        refused(s, c, p, std::string(hn[how]) + ".reset", [&]() { t->reset(); });
+        refused(s, c, p, std::string(hn[how]) + ".invert", [&]() { t->invert(); });
+      }
       if (c.fails.size() == f0) c.rep.outcome("refused:all-writes-through-the-read-only-view");
     }
     const size_t f1 = c.fails.size();
